@@ -81,6 +81,10 @@ EXPLANATION += (
     ' Round 9: the cache group read for a parent has one key expression on every path, derived from parent_node (R-PROV/group-of-parent).'
 )
 
+EXPLANATION += (
+    ' Round 11: without a mapping the query gene names are the var index as read (R-PROV/query-names-as-in-file); min_markers reaches the cache builder as configured.'
+)
+
 RULE_TEXT = (
     "one obligation per cache-path argument, per indexed comprehension, "
     "per cache dataset, per log conditional, per error condition, per "
